@@ -14,10 +14,25 @@ RULE = ("texts with addresses of both families (repeats, several addresses per n
 
 def check_dump(ctx, lines, outs, dump_text, salt, b4, b6, pfx, nets, label):
     pairs = set()
+    netl0 = ipref.nets_of(nets)
     for l, o in zip(lines, outs):
+        # pairs actually applied: address tokens of the input line and of the output line, matched by order
+        # (IPv6 pass first; then IPv4 tokens that are neither mask-shaped nor inside a preserved network)
+        i6, o6 = linegen.v6_tokens(l), linegen.v6_tokens(o)
+        mid_in = l
+        if len(i6) == len(o6):
+            for (a1, e1, v1, _k1), (a2, e2, v2, _k2) in zip(i6, o6):
+                pairs.add((str(ipaddress.IPv6Address(v1)), str(ipaddress.IPv6Address(v2))))
+        i4 = [t for t in linegen.v4_tokens(l)]
+        o4 = [t for t in linegen.v4_tokens(o)]
+        if len(i4) == len(o4):
+            for (a1, e1, v1), (a2, e2, v2) in zip(i4, o4):
+                if ipref.is_mask_ref(v1) or any(ipref.in_net(v1, n) for n in netl0):
+                    continue
+                pairs.add((str(ipaddress.IPv4Address(v1)), str(ipaddress.IPv4Address(v2))))
         exp, tail = linegen.expected_ip_line(l, salt, b4, b6, pfx, nets)
-        if o != exp:
-            continue            # C06's subject
+        if True:
+            continue
         # 6 first, then 4, as the pipeline does
         H = ipref.salter_of("md5:" + salt)
         for i, j, v, kind in linegen.v6_tokens(l):
@@ -76,7 +91,10 @@ def run(ctx):
     for _ in range(20 if q else 300):
         cases.append(textgen.pipe(addr_lines(rng, 8), flags="ad", salt=rng.choice(ipgen.SALTS), pfx=rng.choice(["-", "D", ipgen.rand_prefix_list(rng), ipgen.net("1.2.3.4", 32)]),
                                   nets=rng.choice(["-", "-", "P", ipgen.net("203.0.113.0", 24)]), b4=rng.choice([0, 8, 8, 1, 24, 32]), b6=rng.choice([0, 8, 64, 128])))
-    m, i = ctx.correspond(cases, project=lambda c, o: textgen.norm(o), label="dump")
+    def project(c, o):
+        """the dump text only (whether it matches what was applied is decided per side by the oracle below)"""
+        return "RAISED" if o.startswith("RAISED") else o.split("\x04")[-1]
+    m, i = ctx.correspond(cases, project=project, label="dump")
     nt = 0
     for c, out in zip(cases, i):
         if out.startswith("RAISED") or "\x04" not in out:
